@@ -13,6 +13,7 @@ MODULE_KINDS = ('use', 'forward')
 # where the non-entry files may live (the directory d/ always exists: see KEEP)
 PLACEMENTS = ['a.scss', 'd/b.scss', '_p.scss', 'd/_q.scss', 'c.scss', 'd/e/f.scss', 'd/g.scss', 'h.scss',
               'k/_index.scss', 'k/z.scss', 'k/s/y.scss', 'd/m/index.scss']
+CSS_PLACEMENTS = ['z.css', 'd/w.css']          # plain CSS leaves (never have load statements of their own); used by C02 only
 KEEP = {'d/_keep.scss': '', 'd/e/_keep.scss': '', 'k/_keep.scss': '', 'k/s/_keep.scss': '', 'd/m/_keep.scss': ''}
 VARIANTS = ('plain', 'dot', 'updown', 'ext', 'underscore', 'dotdot2', 'enddot', 'rootrel')
 
@@ -26,7 +27,7 @@ def spell(importer, target, variant):
     on a file system in which the directories d/ and d/e/ exist.  Returns None when the variant does not apply."""
     rel = _rel(importer, target)                       # e.g. ../a.scss, b.scss, d/_q.scss
     head, base = posixpath.split(rel)
-    stem = base[:-5] if base.endswith('.scss') else base
+    stem = base[:-5] if base.endswith('.scss') else base[:-4] if base.endswith('.css') else base
     partial = stem.startswith('_')
     bare = stem[1:] if partial else stem
     join = lambda h, b: (h + '/' + b) if h else b
@@ -77,6 +78,9 @@ def render(graph, marker=lambda i: '.f%d{x:y}' % i, extra=None):
     (namespace, kind, target) of its module edges."""
     files = dict(KEEP)
     for i, path in enumerate(graph['files']):
+        if path.endswith('.css'):
+            files[path] = marker(i) + '\n'          # a plain CSS file: its marker rule, nothing else
+            continue
         edges = graph['edges'][i]
         head, tail = [], []
         uses = []
@@ -207,12 +211,12 @@ def count_graphs(nfiles, max_out, nkinds=4, nvariants=3):
     return tot
 
 
-def random_graph(rng, nfiles, max_out=2, kinds=KINDS, variants=VARIANTS, acyclic=None, p_edge=0.7):
-    files = ['main.scss'] + rng.sample(PLACEMENTS, nfiles - 1)
+def random_graph(rng, nfiles, max_out=2, kinds=KINDS, variants=VARIANTS, acyclic=None, p_edge=0.7, placements=None):
+    files = ['main.scss'] + rng.sample(placements or PLACEMENTS, nfiles - 1)
     edges = []
     for i in range(nfiles):
         es = []
-        for _ in range(rng.randint(0, max_out) if rng.random() < p_edge or i == 0 else 0):
+        for _ in range(0 if files[i].endswith('.css') else rng.randint(0, max_out) if rng.random() < p_edge or i == 0 else 0):
             if acyclic:
                 if i == nfiles - 1:
                     break
